@@ -416,6 +416,133 @@ func runJailProbeJob(j *Job, res *JobResult) {
 			_ = os.Chdir(cwd0)
 		}
 	}()
+	// ---- busydir: an opaque marker (or a whiteout) over a directory that holds something the kernel refuses to remove
+	//      (a mount point): the layer apply reports the refusal, or the thing is gone
+	func() {
+		const top = "/w/.busyd"
+		_ = os.MkdirAll(top+"/dest/d/sub", 0o755)
+		_ = os.WriteFile(top+"/dest/d/plain", []byte("p"), 0o644)
+		if err := unix.Mount("tmpfs", top+"/dest/d/sub", "tmpfs", 0, "size=1m"); err != nil {
+			skip("busydir", err)
+			return
+		}
+		defer unix.Unmount(top+"/dest/d/sub", unix.MNT_DETACH)
+		_ = os.WriteFile(top+"/dest/d/sub/old", []byte("o"), 0o644)
+		out.Ran = append(out.Ran, "busydir")
+		for _, variant := range []string{"opaque", "whiteout"} {
+			var buf bytes.Buffer
+			tw := tar.NewWriter(&buf)
+			if variant == "opaque" {
+				_ = tw.WriteHeader(&tar.Header{Name: "d/", Typeflag: tar.TypeDir, Mode: 0o755})
+				_ = tw.WriteHeader(&tar.Header{Name: "d/.wh..wh..opq", Typeflag: tar.TypeReg, Mode: 0o644})
+			} else {
+				_ = tw.WriteHeader(&tar.Header{Name: "d/.wh.sub", Typeflag: tar.TypeReg, Mode: 0o644})
+			}
+			_ = tw.Close()
+			_, err := archive.ApplyUncompressedLayer(top+"/dest", bytes.NewReader(buf.Bytes()), nil)
+			_, serr := os.Lstat(top + "/dest/d/sub")
+			if err == nil && serr == nil {
+				prob("C20 busy directory: a layer with %s for a directory that holds a mount point (d/sub) reported success, and d/sub is still there: a removal was refused and the refusal was not reported", map[string]string{"opaque": "an opaque marker in its parent", "whiteout": "a whiteout"}[variant])
+				break
+			}
+		}
+	}()
+	// ---- twiceclosed: a chrooted tar stream closed twice (a deferred Close after an explicit one), then two chrooted tar
+	//      streams on other roots open at the same time: each gives what it gives alone
+	func() {
+		mk := func(root string, names ...string) {
+			_ = os.MkdirAll(root+"/src", 0o755)
+			for _, n := range names {
+				_ = os.WriteFile(root+"/src/"+n, []byte(strings.Repeat(n, 3000)), 0o644)
+			}
+		}
+		mk("/w/.dc/A", "a1", "a2")
+		mk("/w/.dc/B", "b1", "b2", "b3")
+		mk("/w/.dc/C", "c1")
+		list := func(rc io.ReadCloser) string {
+			var ns []string
+			tr := tar.NewReader(rc)
+			for {
+				h, err := tr.Next()
+				if err != nil {
+					break
+				}
+				ns = append(ns, h.Name)
+			}
+			return strings.Join(ns, " ")
+		}
+		solo := func(root string) (string, error) {
+			rc, err := chrootarchive.Tar(root+"/src", nil, root)
+			if err != nil {
+				return "", err
+			}
+			defer rc.Close()
+			return list(rc), nil
+		}
+		wantB, err1 := solo("/w/.dc/B")
+		wantC, err2 := solo("/w/.dc/C")
+		if err1 != nil || err2 != nil {
+			skip("twiceclosed", fmt.Errorf("%v %v", err1, err2))
+			return
+		}
+		out.Ran = append(out.Ran, "twiceclosed")
+		for round := 0; round < 3; round++ {
+			if rc, err := chrootarchive.Tar("/w/.dc/A/src", nil, "/w/.dc/A"); err == nil {
+				_ = list(rc)
+				_ = rc.Close()
+				_ = rc.Close()
+			}
+			rcB, eB := chrootarchive.Tar("/w/.dc/B/src", nil, "/w/.dc/B")
+			rcC, eC := chrootarchive.Tar("/w/.dc/C/src", nil, "/w/.dc/C")
+			if eB != nil || eC != nil {
+				continue
+			}
+			var gotB, gotC string
+			var wg sync.WaitGroup
+			wg.Add(2)
+			go func() { defer wg.Done(); gotB = list(rcB) }()
+			go func() { defer wg.Done(); gotC = list(rcC) }()
+			wg.Wait()
+			rcB.Close()
+			rcC.Close()
+			if gotB != wantB || gotC != wantC {
+				prob("C13/C18 independence: after a chrooted tar stream was closed twice, two chrooted tar streams on other roots open at the same time gave [%s] and [%s]; alone they give [%s] and [%s]", gotB, gotC, wantB, wantC)
+				break
+			}
+		}
+	}()
+	// ---- procdir: a root that has a directory named proc and a link into /proc/self/root: inside the jail that link
+	//      leads nowhere (nothing is mounted there), so nothing from outside the root can be archived through it
+	func() {
+		const root = "/w/.pj/root"
+		_ = os.MkdirAll(root+"/proc", 0o755)
+		_ = os.MkdirAll(root+"/sub", 0o755)
+		_ = os.WriteFile(root+"/sub/in", []byte("inside"), 0o644)
+		_ = os.MkdirAll("/w/.pjcanary", 0o755)
+		_ = os.WriteFile("/w/.pjcanary/secret", []byte("CANARY-through-proc-self-root"), 0o644)
+		_ = os.Symlink("/proc/self/root/w/.pjcanary", root+"/esc")
+		_ = os.Symlink("../proc/self/root/w/.pjcanary/secret", root+"/sub/rel")
+		out.Ran = append(out.Ran, "procdir")
+		for _, v := range []struct {
+			src string
+			inc []string
+		}{{root, []string{"esc/secret"}}, {root, []string{"proc/self/root/w/.pjcanary/secret"}}, {root + "/esc", nil}, {root, []string{"sub/rel"}}, {root, nil}} {
+			rc, err := chrootarchive.Tar(v.src, &archive.TarOptions{IncludeFiles: v.inc}, root)
+			if err != nil {
+				continue
+			}
+			b, _ := io.ReadAll(rc)
+			rc.Close()
+			if bytes.Contains(b, []byte("CANARY-through-proc")) {
+				prob("C07 proc in the root: chrooted tar of %s (include %q, root %s, which has a directory named proc) archived the content of /w/.pjcanary/secret, which lies outside the root", v.src, v.inc, root)
+				break
+			}
+		}
+		// and nothing stays mounted on the root's proc directory for the rest of the process
+		if mi, err := os.ReadFile("/proc/self/mountinfo"); err == nil && strings.Contains(string(mi), " "+root+"/proc ") {
+			prob("C13 proc in the root: after chrooted tar calls something is mounted on %s/proc in the mount table of the rest of the process", root)
+		}
+	}()
 	// ---- nilopts: calls with nil options are independent of each other (nothing a call writes into "its"
 	//      options may be visible to the next call)
 	func() {
